@@ -34,7 +34,28 @@ TARGETS = [
          structs=["vls-core/src/tx/tx.rs"], fns=[
         ("EnforcementState", "minimum_to_holder_value", "C07", "C07_fn_minimum_to_holder_value"),
         ("EnforcementState", "minimum_to_counterparty_value", "C07", "C07_fn_minimum_to_counterparty_value"),
-        ("", "min_opt", "C06", None, "snippet"),
+        ("", "min_opt", "C06", "C06_fn_min_opt", "snippet"),
+    ]),
+    # C06: the two payment checks of the validator.  A separate area (= a separate generated `SimplePolicy` structure
+    # with only the three fields these functions read), so that the field maps of C05/C07/C08 stay untouched.
+    # "errall": the `fngen` dispatch instantiates the external `policy_filter_err` with `fun _ => true` (every tag is
+    # an error: the default filter), so that the differential group can call them through the `Validator` trait.
+    dict(area="SimplePay", rel="vls-core/src/policy/simple_validator.rs", consts=["vls-core/src/policy/mod.rs"], externals={}, fns=[
+        ("SimpleValidator", "validate_payment_balance", "C06", "C06_fn_validate_payment_balance", "errall"),
+        ("SimpleValidator", "validate_payment_cltv", "C06", "C06_fn_validate_payment_cltv", "errall"),
+    ]),
+    # C06: the per-payment bookkeeping of node.rs.  `OrderedMap<ChannelId, u64>` / `Map<PaymentHash, _>` are maps keyed
+    # by an opaque type (association lists, order not represented; rs2lean admits only order-insensitive operations).
+    dict(area="NodePay", rel="vls-core/src/node.rs", consts=[], externals={}, fns=[
+        ("RoutedPayment", "new", "C06", "C06_fn_new"),
+        ("RoutedPayment", "is_fulfilled", "C06", "C06_fn_is_fulfilled"),
+        ("RoutedPayment", "is_no_incoming", "C06", "C06_fn_is_no_incoming"),
+        ("RoutedPayment", "is_no_outgoing", "C06", "C06_fn_is_no_outgoing"),
+        ("RoutedPayment", "updated_incoming_outgoing", "C06", "C06_fn_updated_incoming_outgoing"),
+        ("RoutedPayment", "incoming_outgoing", "C06", "C06_fn_incoming_outgoing"),
+        ("RoutedPayment", "apply", "C06", "C06_fn_apply"),
+        ("RoutedPayment", "get_cltv_bounds", "C06", "C06_fn_get_cltv_bounds"),
+        ("NodeState", "is_forwarded_payment_prunable", "C06", "C06_fn_is_forwarded_payment_prunable"),
     ]),
     dict(area="Kvv", rel="vls-persist/src/kvv/memory.rs", consts=[], externals={}, fns=[
         ("MemoryKVVStore", "put_with_version", "C16", "C16_fn_put_with_version"),
@@ -83,6 +104,7 @@ class Codec:
         if t[0] == "opt": return "(Option %s)" % self.lean_ty(t[1])
         if t[0] == "vec": return "(List %s)" % self.lean_ty(t[1])
         if t[0] == "map": return "(List (String × %s))" % self.lean_ty(t[2])
+        if t[0] == "omap": return "(List (Nat × %s))" % self.lean_ty(t[2])
         if t[0] == "tuple": return "(" + " × ".join(self.lean_ty(x) for x in t[1]) + ")"
         return u.lt(t, False)
 
@@ -129,6 +151,7 @@ class Codec:
         if k == "opt": return "(decOpt %s)" % self.dec(t[1])
         if k == "vec": return "(decList %s)" % self.dec(t[1])
         if k == "map": return "(decList (decPair decStr %s))" % self.dec(t[2])
+        if k == "omap": return "(decList (decPair decNat %s))" % self.dec(t[2])
         if k == "tuple":
             ds = [self.dec(x) for x in t[1]]
             r = ds[-1]
@@ -147,6 +170,7 @@ class Codec:
         if k == "opt": return "(encOpt %s)" % self.enc(t[1])
         if k == "vec": return "(encList %s)" % self.enc(t[1])
         if k == "map": return "(encList (encPair id %s))" % self.enc(t[2])
+        if k == "omap": return "(encOmap %s)" % self.enc(t[2])
         if k == "tuple":
             es = [self.enc(x) for x in t[1]]
             r = es[-1]
@@ -156,13 +180,16 @@ class Codec:
         raise RsError("no encoder for %r" % (t,))
 
 
-def dispatch_for(unit, area, fns, arms, defs):
+def dispatch_for(unit, area, fns, arms, defs, errall=()):
     """adds the `call_…` definitions of the translated functions of one unit"""
     cd = Codec(unit, area)
     calls = []
     for f in fns:
         key = "%s.%s" % (area, f.lean_name)
-        if f.exts:
+        extargs = ""
+        if f.exts and (f.impl, f.name) in errall and [n for n, _ in f.exts] == ["policy_filter_err"]:
+            extargs = "(fun _ => true) "
+        elif f.exts:
             arms.append('  | "%s" :: _ => "nodriver"' % key)
             continue
         ident = "call_%s_%s" % (area, f.lean_name.replace(".", "_").replace("«", "").replace("»", ""))
@@ -171,7 +198,7 @@ def dispatch_for(unit, area, fns, arms, defs):
         for i, (pn, pt) in enumerate(f.params):
             L.append("  let (a%d, ts) ← %s ts" % (i, cd.dec(pt)))
             names.append("a%d" % i)
-        call = "Fn%s.%s %s" % (area, f.lean_name, " ".join(names))
+        call = "Fn%s.%s %s%s" % (area, f.lean_name, extargs, " ".join(names))
         enc = cd.enc(f.out_ty)
         res = "encM %s (%s)" % (enc, call) if f.monadic else '"ok " ++ %s (%s)' % (enc, call)
         L.append("  match ts with")
@@ -221,7 +248,8 @@ def extract(repo):
                 snippets.append("// %s:%d\n%s\n" % (tg["rel"], f.line, txt))
         outputs["Fn%s.lean" % tg["area"]] = u.emit()
         imports.append("import VlsModel.Gen.Fn%s" % tg["area"])
-        dispatch_for(u, tg["area"], [u.fns[k] for k in u.order], arms, ddefs)
+        dispatch_for(u, tg["area"], [u.fns[k] for k in u.order], arms, ddefs,
+                     errall={(t[0] or None, t[1]) for t in tg["fns"] if len(t) > 4 and t[4] == "errall"})
     outputs["FnDispatch.lean"] = "\n".join(
         ["import VlsModel.Drv.FnCodec"] + imports +
         ["/-! Dispatch table of the driver model `fngen`: `<Area>.<function> <args…>` -> outcome of the generated",
